@@ -1,4 +1,7 @@
 import Narwhal.Model.Id
 import Narwhal.Model.Acl
 import Narwhal.Model.Server
+import Narwhal.Lemmas.Assoc
+import Narwhal.Lemmas.Emit
 import Narwhal.Theorems.C03
+import Narwhal.Theorems.C12
